@@ -34,37 +34,55 @@ def gen_cases(ctx, nshards=None):
         return vf.run_tlc(ctx, "Gen_Cql", cfg, workers=1, heap="2g", timeout=800, deadlock=False,
                           env={"VF_SHARD": i, "VF_NSHARDS": nshards}, name="gen_%d" % i, quiet=True)
 
-    cases, states = [], 0
+    cases, bigs, states = [], [], 0
     with cf.ThreadPoolExecutor(nshards) as ex:
         for r in ex.map(one, range(nshards)):
             if not r.ok:
                 raise vf.Inconclusive("case generator failed: %s %s\n%s" % (r.violated, r.error, r.out[-3000:]))
             cs = vf.tlc_printed(r.out, "CASE")
-            if len(cs) != r.distinct:
-                raise vf.Inconclusive("case generator printed %d cases for %d states" % (len(cs), r.distinct))
+            bs = vf.tlc_printed(r.out, "BIG")
+            if len(cs) + len(bs) != r.distinct:
+                raise vf.Inconclusive("case generator printed %d cases for %d states" % (len(cs) + len(bs), r.distinct))
             cases += cs
+            bigs += bs
             states += r.distinct
     cases.sort(key=lambda c: c["id"])
-    if not cases or len({c["id"] for c in cases}) != len(cases):
+    bigs.sort(key=lambda c: c["id"])
+    if not cases or len({c["id"] for c in cases}) != len(cases) or not bigs:
         raise vf.Inconclusive("case generator produced no / duplicate cases")
-    ctx.log("TLC generated %d cases (%d shards)" % (len(cases), nshards))
-    return cases
+    ctx.log("TLC generated %d cases + %d size-limit descriptions (%d shards)" % (len(cases), len(bigs), nshards))
+    return cases, bigs
 
 
-def replay(ctx, binary, cases):
-    cp, rp = os.path.join(ctx.tmp, "cases.ndjson"), os.path.join(ctx.tmp, "results.ndjson")
+def replay(ctx, binary, cases, bigs):
+    """Runs the cases on the real code. Returns (results by case id, later records, big results by id):
+    later records are Marshal outputs read again after further values were marshalled (hold-and-recheck),
+    the outputs of the marshalQueryValue path for the bind values of one statement, and the outputs of
+    marshalling concurrently with other goroutines."""
+    cp, rp, bp = os.path.join(ctx.tmp, "cases.ndjson"), os.path.join(ctx.tmp, "results.ndjson"), os.path.join(ctx.tmp, "big.ndjson")
     vf.write_ndjson(cp, cases)
-    rc, out = vf.run_gotest(ctx, binary, "^TestVfC12Replay$", env={"VF_CASES": cp, "VF_RESULTS": rp}, timeout=600)
-    if "VFSUMMARY" not in out or not os.path.exists(rp):
+    vf.write_ndjson(bp, bigs)
+    rc, out = vf.run_gotest(ctx, binary, "^TestVfC12Replay$", env={"VF_CASES": cp, "VF_RESULTS": rp, "VF_BIG": bp}, timeout=900)
+    m = re.search(r"^VFSUMMARY (.*)$", out, re.M)
+    if not m or not os.path.exists(rp):
         raise vf.Inconclusive("replay driver failed:\n" + out[-3000:])
-    res = {r["id"]: r for r in vf.read_ndjson(rp)}
-    if len(res) != len(cases):
-        raise vf.Inconclusive("replay driver returned %d results for %d cases" % (len(res), len(cases)))
-    bad = [r for r in res.values() if "harness" in r]
+    summ = json.loads(m.group(1))
+    res, laters, bigres = {}, [], {}
+    for r in vf.read_ndjson(rp):
+        if "later_of" in r:
+            laters.append(r)
+        elif r.get("big"):
+            bigres[r["id"]] = r
+        else:
+            res[r["id"]] = r
+    if len(res) != len(cases) or len(bigres) != len(bigs):
+        raise vf.Inconclusive("replay driver returned %d results for %d cases, %d for %d size-limit cases" % (
+            len(res), len(cases), len(bigres), len(bigs)))
+    bad = [r for r in list(res.values()) + list(bigres.values()) if "harness" in r]
     if bad:
         raise vf.Inconclusive("harness could not build %d cases, e.g. %s" % (len(bad), json.dumps(bad[0])[:400]))
-    ctx.log("replayed %d cases on the real Marshal/Unmarshal" % len(res))
-    return res
+    ctx.log("replayed %d cases on the real Marshal/Unmarshal: %s" % (len(res), summ))
+    return res, laters, bigres, summ
 
 
 def random_vectors(ctx, binary, n):
@@ -344,6 +362,86 @@ def judge_encoding(ctx, cases, results, stats):
                 stats["enc_refused_ok"] += 1
 
 
+def judge_later(ctx, cases, results, laters, stats):
+    """Hold-and-recheck (C12): what a slice returned by Marshal holds after further values were marshalled
+    ("held", "concurrent"), what Marshal returns while other goroutines marshal ("concurrent-first") and what
+    marshalQueryValue stored for each bind value once all values of the statement were marshalled ("statement")
+    must still be an encoding of the value: judged against the same TLC expectation as the first output."""
+    byid = {c["id"]: c for c in cases}
+    for l in laters:
+        c, r = byid[l["later_of"]], results[l["later_of"]]
+        if not c["claimed"]:
+            continue
+        rl, mode = l["res_later"], l["mode"]
+        stats["later_" + mode.replace("-", "_")] += 1
+        if rl["st"] == r["res"]["st"] and rl["b"] == r["res"]["b"]:
+            continue                                      # same as the first output, judged there
+        what = "Marshal(%s), %s, = %s" % (show(c), {
+            "held": "read again after later values were marshalled",
+            "concurrent": "marshalled while other goroutines marshal, read again afterwards",
+            "concurrent-first": "marshalled while other goroutines marshal",
+            "statement": "as a bind value of a statement (marshalQueryValue), read after the statement's other values were marshalled"}[mode],
+            rl["st"] if rl["st"] != "ok" else hexs(rl["b"]))
+        if c["conv"] == "ok":
+            if rl["st"] == "err":
+                if not c["ref"]:
+                    ctx.add_drift("%s: %s" % (what, rl.get("err")))
+            elif not any(a["st"] == rl["st"] and a["b"] == rl["b"] for a in c["alts"]):
+                ctx.violation(key_for(c, rl, c["spec"], "enc", "bytes-" + mode),
+                              what + ", the protocol's encoding is %s (first read: %s)" % (
+                                  " | ".join("null" if a["st"] == "null" else hexs(a["b"]) for a in c["alts"][:2]), hexs(r["res"]["b"])),
+                              dict(case=c, result=r, later=l))
+            else:
+                stats["later_equal"] += 1
+        elif rl["st"] in ("ok", "null"):
+            ctx.violation(key_for(c, rl, c["spec"], "enc", "accepted-" + mode), what + " although the column type has no encoding for the value",
+                          dict(case=c, result=r, later=l))
+
+
+def big_show(b):
+    return "%s (protocol %d, element size %d, %d element(s))" % (b["form"], b["p"], b["size"], b["count"])
+
+
+def judge_big(ctx, stats, prop):
+    """The [short] framing limits: TLC states whether the framing can carry the described value
+    (SizeEncodable), the total length and the first bytes of its encoding; the harness built the value and
+    reports refusal / length / prefix (C12) and a summary of the round trip (C02)."""
+    bigs, bigres = ctx.extra["bigs"], ctx.extra["bigres"]
+    for b in bigs:
+        r = bigres[b["id"]]
+        stats["big_cases"] += 1
+        if r["st"] == "panic":
+            ctx.violation("enc-big-%s-panic" % b["form"], "Marshal of %s panicked: %s" % (big_show(b), r.get("err")), dict(big=b, result=r))
+            continue
+        if prop == "C12":
+            if b["refuse"]:
+                if r["st"] == "ok":
+                    ctx.violation("enc-big-%s-accepted" % b["form"],
+                                  "Marshal of %s returned %d bytes starting %s although the [short] framing of protocol <= 2 cannot carry it" % (
+                                      big_show(b), r["total"], hexs(r["prefix"])), dict(big=b, result=r))
+                else:
+                    stats["big_refused_ok"] += 1
+            elif r["st"] == "err":
+                ctx.add_drift("Marshal refuses %s: %s" % (big_show(b), r.get("err")))
+            elif r["total"] != b["total"] or r["prefix"][:len(b["prefix"])] != b["prefix"]:
+                ctx.violation("enc-big-%s-bytes" % b["form"], "Marshal of %s: %d bytes starting %s, the protocol's encoding has %d bytes starting %s" % (
+                    big_show(b), r["total"], hexs(r["prefix"]), b["total"], hexs(b["prefix"])), dict(big=b, result=r))
+            else:
+                stats["big_equal"] += 1
+        else:
+            if r["st"] != "ok":
+                stats["big_refused"] += 1
+                continue
+            rt = r["rt"]
+            if rt["st"] == "ok" and rt["count"] == b["count"] and rt["equal"]:
+                stats["big_rt_equal"] += 1
+            else:
+                ctx.violation("rt-big-%s-%s" % (b["form"], "value" if rt["st"] == "ok" else rt["st"]),
+                              "Unmarshal(Marshal(%s)) gives %s" % (big_show(b), "%d element(s), %s the input" % (
+                                  rt["count"], "equal to" if rt["equal"] else "different from") if rt["st"] == "ok" else rt["st"] + " " + str(rt.get("err"))),
+                              dict(big=b, result=r))
+
+
 MODES = (("", ""), ("_dirty", "-prefilled"), ("_reuse", "-reused"))
 
 
@@ -409,13 +507,17 @@ def judge_vectors(ctx, recs, verdicts, stats, prop):
             stats["vec_unclaimed"] += 1
             continue
         stats["vec_claimed"] += 1
+        held = "-held" if "later_of" in rec else ""
+        if held:
+            stats["vec_changed_later"] += 1
         if prop == "C12":
             if v["enc"] == "refused":
                 ctx.add_drift("Marshal refuses a documented, encodable random value (%s %s)" % (show(case), json.dumps(rec["gv"])[:200]))
             elif v["enc"] != "ok":
                 what = {"enc-bytes": "bytes", "enc-accepted": "accepted", "enc-panic": "panic"}[v["enc"]]
-                ctx.violation(key_for(case, rec["res"], v["spec"], "enc", what),
-                              "random vector: Marshal(%s %s) = %s, specification: %s" % (
+                ctx.violation(key_for(case, rec["res"], v["spec"], "enc", what + held),
+                              ("random vector, bytes read again after later values were marshalled: " if held else "random vector: ") +
+                              "Marshal(%s %s) = %s, specification: %s" % (
                                   show(case), json.dumps(rec["gv"])[:160], rec["res"]["st"] + " " + hexs(rec["res"]["b"]),
                                   v["spec"]["st"] + " " + hexs(v["spec"]["b"])), dict(vector=rec, verdict=v))
         for i, dv in enumerate(v["decs"]):
@@ -467,9 +569,10 @@ def collect(ctx):
     """Everything both properties need: cases + expectations from TLC, real results, random vectors."""
     quick = ctx.tier == "quick"
     binary = vf.build_gotest(ctx, ".", harness_dirs())
-    cases = gen_cases(ctx)
-    results = replay(ctx, binary, cases)
+    cases, bigs = gen_cases(ctx)
+    results, laters, bigres, summ = replay(ctx, binary, cases, bigs)
     recs, verdicts = random_vectors(ctx, binary, 3000 if quick else 40000)
+    ctx.extra = dict(bigs=bigs, bigres=bigres, laters=laters, summ=summ)
     return cases, results, recs, verdicts
 
 
@@ -482,11 +585,13 @@ def run(ctx):
     judge_encoding(ctx, cases, results, st)
     judge_decoding(ctx, cases, results, st, "spec")
     judge_vectors(ctx, recs, verdicts, st, "C12")
+    judge_later(ctx, cases, results, ctx.extra["laters"], st)
+    judge_big(ctx, st, "C12")
     ctx.log("stats: %s" % dict(st))
     picks = [c for c in cases if c["fam"] in ("int", "date", "duration", "nested3", "decimal")]
     step = max(1, len(picks) // 5)
     ctx.cov = dict(
-        evaluations=len(cases) + st["dec_evaluations"] + len(verdicts) + st["vec_decodes"],
+        evaluations=len(cases) + st["dec_evaluations"] + len(verdicts) + st["vec_decodes"] + len(ctx.extra["laters"]) + st["big_cases"],
         distinct_nontrivial=nontrivial(cases, results),
         rule="cases = (CQL type, protocol, Go kind, value) enumerated by Gen_Cql.tla from boundary alphabets (every integer width's "
              "min/max/+-1, sign-extension edges, 2^63, 2^64-1, big varints/decimals, NaN payloads/-0, instants around midnight before "
@@ -497,6 +602,9 @@ def run(ctx):
         cases=len(cases), cases_unclaimed=st["unclaimed"], encodings_equal=st["enc_equal"], refusals_expected_and_seen=st["enc_refused_ok"],
         decodes_of_reference_encodings=st["dec_evaluations"], decodes_equal=st["dec_equal"], decode_errors_allowed=st["dec_err_allowed"],
         decodes_into_prefilled_or_reused_destination_identical_to_fresh=st["dec_same_as_fresh"],
+        marshal_outputs_held_and_reread=ctx.extra["summ"].get("held", 0), outputs_changed_later=ctx.extra["summ"].get("changed_later", 0),
+        statement_bind_values=st["later_statement"], concurrent_marshals=st["later_concurrent_first"],
+        size_limit_cases=st["big_cases"], size_limit_refusals_expected_and_seen=st["big_refused_ok"], size_limit_encodings_equal=st["big_equal"],
         random_vectors=len(verdicts), random_vectors_claimed=st["vec_claimed"], random_vector_decodes=st["vec_decodes"],
         samples=[sample_of(c, results[c["id"]]) for c in picks[::step][:6]],
     )
